@@ -30,6 +30,7 @@ fn main() {
         let yk = match kind.as_str() {
             "Grmtools" => YaccKind::Grmtools,
             "NoAction" => YaccKind::Original(YaccOriginalActionKind::NoAction),
+            "UserAction" => YaccKind::Original(YaccOriginalActionKind::UserAction),
             _ => YaccKind::Original(YaccOriginalActionKind::GenericParseTree),
         };
         let s2 = s.clone();
@@ -109,7 +110,12 @@ fn main() {
         }
         // glue
         let conv = match kind.as_str() {
-            "Grmtools" => "let (v, e) = super::__Y__::parse(&lexer); (v, crate::conv_errors(e))".to_string(),
+            "Grmtools" | "UserAction" => match s["param"].as_str() {
+                Some("u64") => format!("let (v, e) = super::__Y__::parse(&lexer, {}u64); (v, crate::conv_errors(e))", 7 + i % 5),
+                Some("generic") => format!("let pv: u64 = {}; let (v, e) = super::__Y__::parse(&lexer, &pv); (v, crate::conv_errors(e))", 7 + i % 5),
+                Some("log") => "let log = ::std::cell::RefCell::new(Vec::<String>::new()); let (v, e) = super::__Y__::parse(&lexer, &log); (v.map(|v| format!(\"{v} LOG[{}]\", log.borrow().join(\";\"))).or_else(|| Some(format!(\"<none> LOG[{}]\", log.borrow().join(\";\")))), crate::conv_errors(e))".to_string(),
+                _ => "let (v, e) = super::__Y__::parse(&lexer); (v, crate::conv_errors(e))".to_string(),
+            },
             "NoAction" => "let e = super::__Y__::parse(&lexer); (if e.is_empty() { Some(String::from(\"()\")) } else { None }, crate::conv_errors(e))".to_string(),
             _ => "let (v, e) = super::__Y__::parse(&lexer); (v.map(|t| crate::show_tree(&t)), crate::conv_errors(e))".to_string(),
         }
